@@ -193,12 +193,14 @@ class _PythonFnFactory(object):
     factory_code = self._unbound_factory.__code__
     factory_freevars = factory_code.co_freevars
     closure_map = dict(zip(self._freevars, closure))
-    factory_closure = tuple(
-        closure_map[name] for name in factory_code.co_freevars)
-    if len(factory_closure) != len(closure):
+    if len(closure) != len(self._freevars):
       raise ValueError(
-          'closure mismatch, requested {}, but source function had {}'.format(
-              self._freevars, factory_freevars))
+          'closure mismatch, requested {}, but source function had {} cells'
+          .format(self._freevars, len(closure)))
+    # The converted code may reference fewer free variables than the source
+    # function (e.g. a symbol used only by a directive, which is removed).
+    factory_closure = tuple(
+        closure_map[name] for name in factory_freevars)
 
     bound_factory = types.FunctionType(
         code=factory_code,
